@@ -69,7 +69,9 @@ THEMES = [
            (3, 3): ["a+b*r", "a*b", "a-b", ""]}),
     Theme("eam", {1: "EAM-Embed", 2: "EAM-Density", 3: "Notes"},
           {1: _SP, 2: _SP, 3: _SP},
-          dict([((s, k), ["as.polynomial %d 1" % (10 * s + k), ">=0 as.polynomial %d 2 1" % (10 * s + k), "as.polynomial %d 0 3" % (10 * s + k), ""])
+          # values may contain ':' as well (a ${SECTION:KEY} place-holder): SECTION:KEY=VALUE is split at the first ':' and the first '='
+          dict([((s, k), ["as.polynomial %d 1" % (10 * s + k), (">=0 as.polynomial %d 2 1" if s == 1 else ">=0 as.polynomial %d ${Tabulation:nr} 1") % (10 * s + k),
+                          "as.polynomial %d 0 3" % (10 * s + k), ""])
                 for s in (1, 2) for k in (1, 2, 3)] + [((3, k), ["note", "another note", "third", ""]) for k in (1, 2, 3)]),
           preamble="[Tabulation]\ntarget : setfl\nnr : 5\ncutoff : 2.0\nnrho : 4\ncutoff_rho : 3.0\n\n[Pair]\nAl-Al : as.polynomial 1 1\n",
           preamble_items=["Tabulation:target=setfl", "Tabulation:nr=5", "Tabulation:cutoff=2.0", "Tabulation:nrho=4", "Tabulation:cutoff_rho=3.0",
@@ -247,7 +249,9 @@ def _edit_one(job):
                 out["bad"].append((clause, route, msg, ws_used))
         # --list-items / --item-value on the edited document
         if not hand["rej"]:
-            exp = sorted(["%s:%s=%s" % (SECTION[s["s"]], key_text(s["s"], it["k"], 0), val_text(s["s"], it["k"], it["v"])) for s in hand["d"] for it in s["items"]] + TH.preamble_items)
+            # the listing shows values with their place-holders resolved (the eam theme's preamble fixes Tabulation:nr = 5)
+            resolved = lambda v: v.replace("${Tabulation:nr}", "5")
+            exp = sorted(["%s:%s=%s" % (SECTION[s["s"]], key_text(s["s"], it["k"], 0), resolved(val_text(s["s"], it["k"], it["v"]))) for s in hand["d"] for it in s["items"]] + TH.preamble_items)
             got = query_cli(base, cli_args(ops), d, ["--list-items"])
             out["n"] += 1
             if got[0] != "ok":
@@ -266,9 +270,9 @@ def _edit_one(job):
                     q = "%s:%s" % (SECTION[s["s"]], key_text(s["s"], it["k"], 0))
                     got = query_cli(base, cli_args(ops), d, ["--item-value", q])
                     out["n"] += 1
-                    if got[0] != "ok" or got[1].strip() != val_text(s["s"], it["k"], it["v"]):
+                    if got[0] != "ok" or got[1].strip() != resolved(val_text(s["s"], it["k"], it["v"])):
                         out["bad"].append(("item-value", "cli", "--item-value %s with edits %s gives %r, expected %r" % (
-                            q, cli_args(ops), got[1][:80], val_text(s["s"], it["k"], it["v"])), ws_used))
+                            q, cli_args(ops), got[1][:80], resolved(val_text(s["s"], it["k"], it["v"]))), ws_used))
     except Exception:
         import traceback
         out["machinery"] = traceback.format_exc()[-1500:]
@@ -978,7 +982,7 @@ def main_c13(tier, seed):
 LIT = {"L9": "9", "L3": "3.0", "L03": "0.3", "Ly": "0.0 1.0 4.0 9.0 16.0 144.0", "Lextra": "77"}
 # position -> (section, key, value template)
 VPOS = {1: ("Tabulation", "nr", "{}"), 2: ("Tabulation", "cutoff_rho", "{}"),
-        3: ("Pair", "Al-Cu", "as.buck 1000.0 {} 32.0"), 4: ("Pair", "Cu-Cu", "sum(as.polynomial 1 2, f {}, tf)"),
+        3: ("Pair", "Al-Cu", "as.buck 1000.0 {} 32.0"), 4: ("Pair", "Cu-Cu", "sum(as.polynomial 1 {0}, f {0}, tf)"),
         5: ("Potential-Form", "f(r,a)", "a*r + {}"), 6: ("Species", "Al.lattice_constant", "{}"),
         7: ("Table-Form:tf", "y", "{}"), 8: ("EAM-Embed", "Al", "as.polynomial {} 1"), 9: ("EAM-Density", "Al", "as.polynomial {} 1")}
 VPOS_LIT = {1: "L9", 2: "L3", 3: "L03", 4: "L03", 5: "L03", 6: "L3", 7: "Ly", 8: "L9", 9: "L03"}
@@ -1145,6 +1149,8 @@ def dup_base(fam):
     secs = [("Tabulation", [("target", D_TAB[fam]), ("nr", "6"), ("cutoff", "2.5"), ("nrho", "4"), ("cutoff_rho", "3.0")]),
             ("Potential-Form", [("f(r,a)", "a*r + 1"), ("g(r)", "2*r")]),
             ("Table-Form:tf", [("x", "0.0 1.0 2.0 3.0 4.0"), ("y", "0.0 1.0 4.0 9.0 16.0")]),
+            ("Table-Form:ta", [("x", "0.0 1.0 2.0 3.0 4.0"), ("y", "1.0 1.0 1.0 1.0 1.0")]),     # sorts between 'Table-Form: tf' and 'Table-Form:tf'
+            ("Table-Form:tz", [("xy", "0.0 2.0 1.0 2.0 2.0 2.0 3.0 2.0 4.0 2.0")]),
             ("Pair", [("Al-Al", "as.polynomial 1 2"), ("Fe-Al", "as.polynomial 2 2"), ("Al-Cu", "sum(f 2.0, tf)"), ("Cu-Cu", "as.polynomial 3 1"),
                       ("Cu-Fe", "as.polynomial 4 2"), ("Fe-Fe", "as.polynomial 5 2")])]
     if fam != "pair":
